@@ -128,6 +128,8 @@ def generate(seed: int, tier: str) -> Dict[str, Any]:
         else:
             now += ro.choice([0, 1000, 6 * 3_600_000, 86_400_000])
             ops.append({"op": "turn", "agent": agents[len(ops) % len(agents)] if ro.chance(0.7) else ro.choice(agents), "text": ro.choice(texts), "turn_id": i, "now_ms": now})
+            if ro.chance(0.04):
+                ops[-1]["agent"] = None   # a caller that does not say who is asking (run_t2's default context)
     return {"world": world, "cfg": raw, "ops": ops}
 
 
